@@ -33,6 +33,17 @@ pub fn extract(archive: &[u8], chosen: &[String], sched: &Schedule) -> Result<Ex
         _ => usize::MAX,
     };
     let mut rd = ArchiveReader::from_config(prog::CapRead { inner: Cursor::new(archive), cap }, prog::reader_config(&[0])).map_err(|e| format!("open: {e:?}"))?;
+    // the reader is fresh, or (every second case) has been used before: the hash of the first listed file was
+    // asked for, and that file read entirely
+    if (archive.len() + 2 * chosen.len()) % 2 == 1 {
+        let names: Vec<String> = rd.list_files().map(|l| l.cloned().collect()).unwrap_or_default();
+        if let Some(n) = names.iter().min() {
+            let _ = rd.get_hash(n);
+            if let Ok(Some(mut f)) = rd.get_file(n.clone()) {
+                let _ = std::io::copy(&mut f.data, &mut std::io::sink());
+            }
+        }
+    }
     let st = env::shared(sched.clone());
     let mut map: HashMap<&String, ThrottledSink> = HashMap::new();
     let mut datas = Vec::new();
